@@ -283,6 +283,13 @@ fn free_cases(l: &Layout) -> Vec<TCase> {
             }
         }
     }
+    // a non-zero digest whose limbs cancel (1, p-1, 0, 0): a zero test on the limb sum calls it zero
+    for fdef in l.fields.iter().filter(|f| f.kind == Kind::Limb && f.idx.len() == 4) {
+        let mut v = l.base.clone();
+        v[fdef.idx[0]] = 1;
+        v[fdef.idx[1]] = P - 1;
+        out.push(same(format!("cancel:{}=[1,p-1,0,0]", fdef.name), v, fdef.sentinel, false));
+    }
     // every pair of fields
     for a in 0..l.fields.len() {
         for b in a + 1..l.fields.len() {
@@ -890,7 +897,7 @@ fn main() {
     rep.sample(json!({"entry_point": "PublicBatchProver::new(free 29-PI private batch, M=1, N=1)", "template": "single:exit_slot_1.account[14]=1", "expected": "rejected"}));
     rep.sample(json!({"entry_point": "PublicBatchAggregator::with_limits", "template": "real batch over a leaf with outputs 5/1", "expected": "rejected"}));
     rep.sample(json!({"entry_point": "generate_private_batch_circuit_binaries(include_prover=true)", "template": "dummy with non-zero exit_account_2", "expected": "rejected, nothing published"}));
-    rep.rule("case = (entry point, template). (a) PrivateBatchProver::new / PublicBatchProver::new over free-public-input child circuits (21 PIs; 29 PIs = private-batch layout for N=1; thorough also 50 PIs, N=2): the sentinel, every single-position deviation in every public input (scalars {1, 2^32-1}, digest limbs {1, p-1}, the slot count {0, 2N+1, 2^32-1}), every pair of fields, all sentinel / all non-sentinel fields at once, a flipped opening, proofs of non-sentinel statements relabelled with sentinel public inputs, altered public inputs, wrong public-input counts. (b) over the canonical circuits (one good bins dir from generate_all_circuit_binaries, N=1, M=2; per case a copy with the template file replaced): new, new_from_bytes, new_from_files, new_from_binaries_dir of both provers, generate_private_batch_circuit_binaries(include_prover) and PublicBatchAggregator::with_limits on every deviation the canonical circuits can prove (asset-1 dummy, non-zero exit 1 / exit 2 / both, real leaves with zero and non-zero outputs, real batches, all-dummy batches over other dummies), tampered proofs (public input / opening flipped, relabelled), truncated, empty, wrong-layer and absent files. Oracle: accepted <=> public inputs parse as the layer's layout AND block hash, outputs, asset and both exit accounts (leaf) / block hash and every exit slot (private batch) are zero AND the proof verifies under the pinned verifier; any panic is a violation; a rejected build must not publish dummy_private_batch_proof.bin. quick = (a) sentinel, every position with its first value, the multi-field and invalid-proof cases; (b) the shipped template, one provable deviation per sentinel field and one non-verifying template at every entry point; thorough = everything. distinct = distinct (entry point, template) pairs");
+    rep.rule("case = (entry point, template). (a) PrivateBatchProver::new / PublicBatchProver::new over free-public-input child circuits (21 PIs; 29 PIs = private-batch layout for N=1; thorough also 50 PIs, N=2): the sentinel, every single-position deviation in every public input (scalars {1, 2^32-1}, digest limbs {1, p-1}, the slot count {0, 2N+1, 2^32-1}), per digest the non-zero value [1,p-1,0,0] whose limbs sum to zero, every pair of fields, all sentinel / all non-sentinel fields at once, a flipped opening, proofs of non-sentinel statements relabelled with sentinel public inputs, altered public inputs, wrong public-input counts. (b) over the canonical circuits (one good bins dir from generate_all_circuit_binaries, N=1, M=2; per case a copy with the template file replaced): new, new_from_bytes, new_from_files, new_from_binaries_dir of both provers, generate_private_batch_circuit_binaries(include_prover) and PublicBatchAggregator::with_limits on every deviation the canonical circuits can prove (asset-1 dummy, non-zero exit 1 / exit 2 / both, real leaves with zero and non-zero outputs, real batches, all-dummy batches over other dummies), tampered proofs (public input / opening flipped, relabelled), truncated, empty, wrong-layer and absent files. Oracle: accepted <=> public inputs parse as the layer's layout AND block hash, outputs, asset and both exit accounts (leaf) / block hash and every exit slot (private batch) are zero AND the proof verifies under the pinned verifier; any panic is a violation; a rejected build must not publish dummy_private_batch_proof.bin. quick = (a) sentinel, every position with its first value, the multi-field and invalid-proof cases; (b) the shipped template, one provable deviation per sentinel field and one non-verifying template at every entry point; thorough = everything. distinct = distinct (entry point, template) pairs");
     rep.assume("free-child constructors are run with zero_knowledge=false in the caller-supplied aggregation config (circuit build dominates; template validation does not depend on it); the sentinel, one deviation per sentinel field and the flipped opening are repeated with the production config. Canonical entry points take no config and use the repo's own. Verdicts are compared as Ok/Err, not by error text");
     rep.assume("templates the canonical circuits cannot prove (e.g. a deviation in the second exit slot only) are covered through the free-child constructors only; 'verifies' is decided by the plonky2 verifier on the pinned verifier data and cross-checked against how each fixture was constructed");
     let code = rep.finish();
